@@ -40,6 +40,8 @@ def shape_rows(shape, i, r):
     """values of row i (1-based) of a shape; deterministic apart from r"""
     if shape == "int_text_real":
         return ([7 + i % 100, 300 + i, 70000 + i, 2 ** 33 + i][i % 4], "row%03d" % i, i + 0.5)
+    if shape == "int_longtext":                   # another column's serial type takes two bytes (text of 58..110 bytes)
+        return ([7 + i % 100, 300 + i, 70000 + i, 2 ** 33 + i][i % 4], "L%03d-" % i + "w" * (54 + (i * 7) % 50))
     if shape == "int2_text":                      # first column always a 2-byte integer
         return (1000 + i, "name-%d" % i)
     if shape == "alias_text":
@@ -63,6 +65,7 @@ def shape_rows(shape, i, r):
 
 DECLS = {
     "int_text_real": "a INTEGER, b TEXT, c REAL",
+    "int_longtext": "a INTEGER, b TEXT",
     "int2_text": "a INTEGER, b TEXT",
     "alias_text": "a INTEGER PRIMARY KEY, b TEXT",
     "text5_int": "a TEXT, b INTEGER",
@@ -78,7 +81,7 @@ POSITIONS = ["first", "middle", "last", "two_apart", "run", "all"]
 MODES = ["db", "wal", "journal"]
 
 
-def grid_spec(shape, ps, nrows, position, mode, r, enc="UTF-8"):
+def grid_spec(shape, ps, nrows, position, mode, r, enc="UTF-8", auto_vacuum=0):
     setup = [f"CREATE TABLE t({DECLS[shape]})"]
     for i in range(1, nrows + 1):
         setup.append("INSERT INTO t VALUES(%s)" % ",".join(P8.q(v) for v in shape_rows(shape, i, r)))
@@ -96,7 +99,7 @@ def grid_spec(shape, ps, nrows, position, mode, r, enc="UTF-8"):
     else:
         dele = ["DELETE FROM t"]
     return {"page_size": ps, "mode": mode, "shape": shape, "position": position, "setup": setup, "steps": [dele],
-            "encoding": enc, "auto_vacuum": 0}
+            "encoding": enc, "auto_vacuum": auto_vacuum}
 
 
 def grid(ctx):
@@ -291,9 +294,15 @@ def check_scenario(ctx, sc_dir, spec, tag):
         want = sc.rows[-2][rid]
         # candidates: the page in the final version (b-tree regions or freelist page) and the journal pre-image
         targets = []
-        F, poff, _ = files.locate(last, leaf)
-        post_page = F[poff:poff + files.ps]
-        if leaf in freelist:
+        try:
+            F, poff, _ = files.locate(last, leaf)
+            post_page = F[poff:poff + files.ps]
+        except Exception:  # noqa
+            post_page = b""
+        if len(post_page) < files.ps:
+            # the page was cut off the end of the file by the deleting transaction: only a journal pre-image is left
+            ctx.branch("page-truncated-away")
+        elif leaf in freelist:
             # a freelist leaf is carved whole; a trunk after its pointer array
             targets.append(("iterator", post_page, ("freelist", 0, files.ps)))
         else:
@@ -364,11 +373,31 @@ WITNESSES = [
 ]
 
 
+# shapes every run must contain (beyond the shuffled grid)
+FORCED = [
+    # the first column's type must come from the freeblock size while another serial type is two bytes long
+    ("int_longtext", 2048, 12, "two_apart", "db", 0),
+    ("int_longtext", 4096, 30, "middle", "wal", 0),
+    # the journaled transaction cut pages off the end of the file: their pre-images carry page numbers beyond the
+    # database size, and that is where the deleted rows are
+    ("int_text_real", 512, 160, "run", "journal", 1),
+    ("int_text_real", 1024, 160, "all", "journal", 1),
+    ("alias_text", 512, 160, "run", "journal", 2),
+]
+
+
 def run(ctx):
     sc = C.Scratch()
     try:
         for i, (shape, ps, n, pos, mode) in enumerate(WITNESSES):
             check_scenario(ctx, sc.dir, grid_spec(shape, ps, n, pos, mode, ctx.rng), f"c09w{i}")
+        for i, (shape, ps, n, pos, mode, av) in enumerate(FORCED):
+            spec = grid_spec(shape, ps, n, pos, mode, ctx.rng, auto_vacuum=av)
+            if av:
+                # delete the rows at the end of the table so that the file shrinks in the journaled transaction
+                spec["steps"] = [[f"DELETE FROM t WHERE rowid > {n // 3}"] + (["PRAGMA incremental_vacuum"] if av == 2 else [])]
+            check_scenario(ctx, sc.dir, spec, f"c09f{i}")
+            ctx.branch(f"forced:{shape}:{mode}:av{av}")
         for i, spec in enumerate(grid(ctx)):
             check_scenario(ctx, sc.dir, spec, f"c09g{i}")
     finally:
